@@ -15,6 +15,7 @@ def dispatch (j : Json) : Except String Json := do
   | "adder" => cmdAdder j
   | "conv" => cmdConv j
   | "muxes" => cmdMuxes j
+  | "cond" => cmdCond j
   | "sanity" => cmdSanity j
   | "topo" => cmdTopo j
   | _ => throw s!"unknown cmd {cmd}"
